@@ -123,8 +123,8 @@ func sessionCacheOnMissPurity(p *core.Prog, h *core.RuleH, fns []*ssa.Function) 
 		}
 		h.Check(len(bad) == 0, id+"!on-miss-captures", pos, "the on-miss callback depends only on the hashed token and on services",
 			"the on-miss callback captures "+strings.Join(bad, ", ")+", which the cache key does not cover: a verdict computed for one request is replayed for every later request carrying the same token")
-		// (c) V2: no clock inside the cached part
-		if strings.HasSuffix(s.Name, "V2") {
+		// (c) no clock and no epoch inside the cached part
+		{
 			clock := ""
 			seen := map[*ssa.Function]bool{}
 			var walk func(f *ssa.Function, d int)
@@ -148,6 +148,13 @@ func sessionCacheOnMissPurity(p *core.Prog, h *core.RuleH, fns []*ssa.Function) 
 								return
 							}
 						}
+						// the current epoch, or a verdict about it. (A historic script runner reads the epoch to find the
+						// height a signature is checked at; that is a function of the token's own fields and is exempt.)
+						if nm := core.CalleeName(c); strings.HasSuffix(nm, ").ExpiredAt") || strings.HasSuffix(nm, ").ValidAt") || strings.HasSuffix(nm, ").InvalidAt") ||
+							strings.HasSuffix(nm, ").Epoch") && f == cl {
+							clock = nm + " at " + p.InstrPos(in)
+							return
+						}
 						if cal := core.StaticCallee(c); cal != nil && d > 0 && core.FuncPkg(cal) != nil && strings.HasPrefix(core.FuncPkg(cal).Path(), core.Mod) {
 							walk(cal, d-1)
 						}
@@ -155,8 +162,8 @@ func sessionCacheOnMissPurity(p *core.Prog, h *core.RuleH, fns []*ssa.Function) 
 				}
 			}
 			walk(cl, 4)
-			h.Check(clock == "", id+"!cached-verdict-is-time-free", pos, "nothing in the cached part of the V2 check reads a clock",
-				"the cached part of the V2 token check reads a clock ("+clock+"): a verdict valid at one moment is replayed until the next epoch")
+			h.Check(clock == "", id+"!cached-verdict-is-time-free", pos, "nothing in the cached part of the check reads a clock or the current epoch",
+				"the cached part of the token check reads a clock or the current epoch ("+clock+"): a verdict valid at one moment is replayed later, and the cache is shared with users that store signature-only verdicts under the same key")
 		}
 	}
 	return n
